@@ -68,22 +68,22 @@ def generate(ctx, rng):
     for row in gen.pairwise(rng, gen.PAIRWISE_DOMAINS):
         i += 1
         yield ("pw", i), _case(rng, row)
-    for _ in range(1300 if quick else 90000):
+    for _ in range(1300 if quick else 450000):
         i += 1
         yield ("rnd", i), _case(rng, gen.random_state(rng))
-    for j in range(90 if quick else 6000):
+    for j in range(90 if quick else 30000):
         yield ("conc", j), {"kind": "concurrent", "version": rng.choice([2, 3]), "nclients": rng.randint(2, 4),
                             "nops": rng.randint(6, 14), "cseed": rng.getrandbits(32), "unsolicited": rng.random() < 0.5,
                             "push": j % 3 != 0, "coalesce": j % 2 == 0}
     # a refresh that its caller abandons (deadline) while the client is reconnecting, re-authenticating or waiting for the reply;
     # afterwards the device changes and the same client object refreshes again
-    for j in range(60 if quick else 4000):
+    for j in range(60 if quick else 20000):
         version = rng.choice([2, 3])
         yield ("abandoned", j), {"kind": "abandoned", "version": version, "phase": rng.choice(["connect", "reply"] + (["handshake"] if version == 3 else [])),
                                  "deadline": rng.choice([0.2, 0.5, 1.3]), "x": gen.random_state(rng), "y": gen.random_state(rng), "z": gen.random_state(rng),
                                  "cseed": rng.getrandbits(32), "op": rng.choice(["refresh", "refresh", "apply"])}
     # the same state applied again after another controller changed the device in between (no refresh in between)
-    for j in range(40 if quick else 3000):
+    for j in range(40 if quick else 15000):
         yield ("reapply", j), {"kind": "reapply", "version": rng.choice([2, 3]), "x": gen.random_state(rng), "y": gen.random_state(rng),
                                "refresh_between": rng.random() < 0.3, "rounds": rng.randint(1, 3), "cseed": rng.getrandbits(32),
                                "push": rng.random() < 0.5}
